@@ -315,7 +315,9 @@ class TensorFrame:
         out = self._apply(fn)
 
         if self._num_rows is not None:
-            dummy = torch.empty((self.num_rows, 0), device=self.device)
+            # One column (not zero): torch skips the bounds check when
+            # gathering from a tensor without elements.
+            dummy = torch.empty((self.num_rows, 1), device=self.device)
             out._num_rows = dummy[index].size(0)
 
         return out
